@@ -1,6 +1,33 @@
 #!/usr/bin/env python3
 """C17 - a cluster answers like a stand-alone node; part transfer is exact.
-Part (a) (transfer) is decided by checks/c17a.py; part (b) (cluster == stand-alone) is not built yet (see level_note)."""
-import runpy, sys
+Part (a) (transfer, fault enumeration): checks/c17a.py.  Part (b) (cluster == stand-alone): checks/c17b.py."""
+import json, sys
 sys.path.insert(0, '/verif/tools'); sys.path.insert(0, '/verif/checks')
-runpy.run_path('/verif/checks/c17a.py', run_name='__main__')
+from vf import core
+import c17a, c17b
+import engcommon as ec
+
+c = core.Check('C17', 'fault_enumeration')
+c.setup()
+if c.replay:
+    obj = json.load(open(c.replay))
+    if obj.get('harness') == 'eng':
+        ec.replay_one(c, c.gobuild('eng'))
+    binp = c.gobuild('c17a')
+    res = c17a.replay(c, binp, obj)
+    for v in res['violations']:
+        c.report(v['signature'], v['detail'], {k: obj[k] for k in ('behaviour', 'leg', 'harness')})
+    c.cov.update(states=1, transitions=1, traces_validated_against_impl=0, evaluations=1, samples=[v['detail'] for v in res['violations']][:1])
+    c.finish()
+a = c17a.run(c)
+b = c17b.run(c)
+cov = dict(a)
+for k in ('states', 'transitions', 'evaluations', 'distinct_nontrivial', 'behaviours_replayed', 'steps_replayed'):
+    if isinstance(b.get(k), int):
+        cov[k] = cov.get(k, 0) + b[k]
+cov['cluster_vs_standalone'] = {k: v for k, v in b.items() if k not in ('samples',)}
+cov['samples'] = list(a.get('samples', []))[:3] + list(b.get('samples', []))[:2]
+cov['rule'] = '(a) ' + str(a.get('rule', '')) + ' (b) ' + str(b.get('rule', ''))
+c.cov.update(**cov)
+c.assumptions += getattr(c17b, 'ASSUMPTIONS', [])
+c.finish()
